@@ -236,6 +236,12 @@ def run(ctx):
         sites, anys = _match_sites(ctx, h, {}, 0)
         ck.ob("C16-R4", fn, "patterns-are-matched-against-the-device-name", len(sites) == 1 and sites[0])
         ck.ob("C16-R4", fn, "excluded-iff-any-pattern-matches", anys == 1)
+        # the glob is compiled from the pattern as given: by the glob crate's constructor, applied to a plain variable
+        # (no trimming, case folding or other rewriting of the pattern on the way)
+        news = [c for c in hirq.calls(h["body"]) if "WildMatch" in (hirq.callee_of(c) or "") and (hirq.callee_of(c) or "").endswith("::new")]
+        plain = bool(news) and all((hirq.callee_of(c) or "").startswith("wildmatch::") and hirq.strip_ref(hirq.call_args(c)[0]).get("k") == "Path" for c in news)
+        ck.ob("C16-R4", fn, "glob-compiled-by-wildmatch-from-the-pattern-as-given", plain,
+              detail=None if plain else "constructors: %s" % [(hirq.callee_of(c), hirq.strip_ref(hirq.call_args(c)[0]).get("k")) for c in news])
     # entry points: every call path from them to open_device goes through a flagger and a `!excluded` filter
     cg = ctx.callgraph()
     for fn in ("remapping_loop::do_remapping_loop_all_devices", "remapping_loop::do_remapping_loop_auto_all_devices"):
@@ -573,7 +579,7 @@ def _match_sites(ctx, h, env, depth):
     sites, anys = [], 0
     for c in hirq.calls(h["body"]):
         cal = hirq.callee_of(c) or ""
-        if "WildMatch" in cal and cal.endswith("::matches"):
+        if cal.startswith("wildmatch::") and "WildMatch" in cal and cal.endswith("::matches"):      # the glob crate's own matcher, not a local type of the same name
             sites.append(_is_device_name(c["args"][0], env))
         elif cal.endswith("Iterator::any"):
             anys += 1
